@@ -17,7 +17,7 @@ func init() {
 		Rule:        "PRNG sequences of put / put(meta) / putNamed (3 names, default and explicit zone) / delete / setEACL over 3 owners and blobs with version-field lengths 0/1/7/127, re-puts of live ids, deletes of missing ids, puts after delete, name reuse, alias expiry (virtual time), signer classes {Alphabet, Majority, member, owner only, nobody}, committees 1/3/4/7; a registry model predicts success and notifications; after every block get/owner/alias/eACL for every id ever used plus unused and wrong-length ids, count, list and containersOf for every owner and the empty owner, NNS TXT records of every alias domain and a raw storage scan are compared with the model. distinct = (operation, signer class, reason/outcome, liveness, fee, committee size).",
 		Assumptions: append(tb, "records of an earlier alias after a re-put under a second name and roster/estimation keys of deleted containers are logged, not judged"),
 		Batches:     tier(96, 1024), Chunk: 4,
-		Floors: []string{"put-ok:put", "put-ok:putmeta", "put-ok:putnamed", "delete-ok", "setEACL-ok", "re-put-of-live-id", "put-refused:tombstoned", "delete-of-missing-id", "name-reused-after-delete", "put-refused:name-taken", "put-refused:no-alphabet-witness", "clock-jump-below-ten-years"},
+		Floors: []string{"put-ok:put", "put-ok:putmeta", "put-ok:putnamed", "delete-ok", "setEACL-ok", "re-put-of-live-id", "put-refused:tombstoned", "delete-of-missing-id", "name-reused-after-delete", "put-refused:name-taken", "put-refused:no-alphabet-witness", "clock-jump-below-ten-years", "container-named-in-a-committee-owned-domain", "delete-refused:reserved-domain-without-committee"},
 		Run:    runC04,
 	})
 	runner.Register(&runner.Check{
@@ -25,7 +25,7 @@ func init() {
 		Rule:        "Container puts with ContainerFee and ContainerAliasFee from {0,1,7,10^6} (changed by setConfig between puts), committees of 1/4/7, owner balance driven to {total-1,total,total+1,0,3*total,2^40} before each put, named and unnamed, owners who are Alphabet nodes themselves, repeated puts until the balance runs out; the multiset of TransferX events with container-fee details and the balance deltas from the Balance storage diff must equal N transfers of the fee; refusals must leave an empty diff. distinct = (operation, signer class, reason/outcome, liveness, fee, committee size).",
 		Assumptions: tb,
 		Batches:     tier(192, 2048), Chunk: 8,
-		Floors: []string{"paid-put:N1", "paid-put:N4", "paid-put:N7", "paid-put:named", "paid-put:unnamed", "paid-put:fee0", "fee-changed-between-puts", "refused-at-total-1", "accepted-at-total", "put-refused:insufficient-balance", "puts-until-balance-runs-out", "paid-put:named-reusing-a-freed-domain", "putNamed-without-a-name-with-a-zone"},
+		Floors: []string{"paid-put:N1", "paid-put:N4", "paid-put:N7", "paid-put:named", "paid-put:unnamed", "paid-put:fee0", "fee-changed-between-puts", "refused-at-total-1", "accepted-at-total", "put-refused:insufficient-balance", "puts-until-balance-runs-out", "paid-put:named-reusing-a-freed-domain", "putNamed-without-a-name-with-a-zone", "committee-larger-than-the-validator-set"},
 		Run:    runC05,
 	})
 	runner.Register(&runner.Check{
